@@ -348,6 +348,68 @@ def public_coroutines():
     return rows
 
 
+# ------------------------------------------------------------------------------------------ bare futures
+def future_sites():
+    """[(module:function, owned)] for every ensure_future(...) / create_task(...) call in the modules of the shipped
+    overlay classes (their whole MRO), of the exit socket, the request cache and the bootstrappers.
+
+    owned = the new task is tied to an owner that unload() cancels: it is an argument of a register_task /
+    register_anonymous_task / replace_task call, or it is bound to a local that is later awaited plainly (`await x`:
+    cancelling the awaiting task - itself a task of the overlay's manager - cancels x), handed to such a register
+    call, or returned to the caller.  `await wait([x], ...)` / `shield(x)` / gather of copies do NOT forward a
+    cancellation and do not count."""
+    import importlib
+    mods = set()
+    for cls, _ in shipped_overlay_classes():
+        for k in cls.__mro__:
+            if k.__module__.startswith("ipv8.") and k.__module__ != "ipv8.taskmanager":
+                mods.add(k.__module__)
+    mods |= {"ipv8.messaging.anonymization.exit_socket", "ipv8.requestcache", "ipv8.bootstrapping.dispersy.bootstrapper",
+             "ipv8.bootstrapping.udpbroadcast.bootstrapper", "ipv8.messaging.anonymization.caches"}
+    REG = ("register_task", "register_anonymous_task", "replace_task")
+    rows = []
+    for mod in sorted(mods):
+        m = importlib.import_module(mod)
+        tree = ast.parse(inspect.getsource(m))
+        funcs = [n for n in ast.walk(tree) if isinstance(n, (ast.FunctionDef, ast.AsyncFunctionDef))]
+        for fn in funcs:
+            own = [n for n in ast.walk(fn)]
+            nested = set()
+            for g in own:
+                if isinstance(g, (ast.FunctionDef, ast.AsyncFunctionDef)) and g is not fn:
+                    nested |= {id(x) for x in ast.walk(g)}
+            parents = {}
+            for n in own:
+                for ch in ast.iter_child_nodes(n):
+                    parents[id(ch)] = n
+            for n in own:
+                if id(n) in nested or not isinstance(n, ast.Call):
+                    continue
+                fname = ast.unparse(n.func)
+                if fname.split(".")[-1] not in ("ensure_future", "create_task"):
+                    continue
+                par = parents.get(id(n))
+                owned = False
+                if isinstance(par, ast.Call) and ast.unparse(par.func).split(".")[-1] in REG:
+                    owned = True
+                elif isinstance(par, ast.Assign) and len(par.targets) == 1 and isinstance(par.targets[0], ast.Name):
+                    x = par.targets[0].id
+                    for u in own:
+                        if id(u) in nested:
+                            continue
+                        if isinstance(u, ast.Await) and isinstance(u.value, ast.Name) and u.value.id == x:
+                            owned = True
+                        if isinstance(u, ast.Return) and isinstance(u.value, ast.Name) and u.value.id == x:
+                            owned = True
+                        if isinstance(u, ast.Call) and ast.unparse(u.func).split(".")[-1] in REG and \
+                                any(isinstance(a, ast.Name) and a.id == x for a in u.args):
+                            owned = True
+                elif isinstance(par, ast.Return):
+                    owned = True
+                rows.append(("%s:%s" % (mod, fn.name), owned))
+    return rows
+
+
 def b(x):
     return "true" if x else "false"
 
@@ -357,6 +419,7 @@ def generate():
     rows = describe_classes()
     ssteps = service_unload_steps()
     pubs = public_coroutines()
+    sites = future_sites()
     t1 = ["(* GENERATED by tools/tr/tr_lifecycle.py from ipv8/messaging/anonymization/endpoint.py and",
           "   ipv8/messaging/interfaces/statistics_endpoint.py - do not edit *)",
           "From Coq Require Import Bool.", "From IPV8V Require Import model.M11_listeners.", "",
@@ -374,7 +437,11 @@ def generate():
           "", "(* every public coroutine method (an application awaits it in its OWN task: unload() cannot cancel it), and whether",
           "   each of its sending steps after its first suspension runs as a @task of the overlay's task manager *)",
           "Definition public_coroutines : list (string * string * bool) :=",
-          "  [" + ";\n   ".join('("%s", "%s", %s)' % (c, m, b(r)) for c, m, r in pubs) + "]."]
+          "  [" + ";\n   ".join('("%s", "%s", %s)' % (c, m, b(r)) for c, m, r in pubs) + "].",
+          "", "(* every ensure_future / create_task in the overlays' modules, and whether the new task is tied to an owner that",
+          "   unload() cancels (registered with the task manager, or plainly awaited / returned by the function that made it) *)",
+          "Definition future_sites : list (string * bool) :=",
+          "  [" + ";\n   ".join('("%s", %s)' % (w, b(o)) for w, o in sites) + "]."]
     generate.public_coroutines = pubs
     return "\n".join(t1) + "\n", "\n".join(t2) + "\n", api, rows
 
